@@ -137,6 +137,12 @@ def rule_hash_int(ctx, repo, eng):
     for n in walk_no_nested(fi.node):
         if isinstance(n, ast.Assign) and n.value is unp[0] and isinstance(n.targets[0], ast.Name):
             tvar = n.targets[0].id
+    for lp_ in loops:
+        early = [x for x in ast.walk(lp_) if isinstance(x, (ast.Break, ast.Continue, ast.Return))]
+        if early:
+            r.violated('weights:every-limb', common.site_of(fi, early[0]), 'the loop that combines the limbs can leave or skip with `%s`: limbs above (or at) that point do not contribute, and a hash '
+                       'with a zero word below a non-zero one is read as a smaller number' % norm(early[0]), sure=True)
+            return
     if len(loops) == 1 and len(loops[0].body) == 1 and isinstance(loops[0].target, ast.Name):
         b = loops[0].body[0]
         i = norm(loops[0].target)
@@ -272,6 +278,10 @@ def rule_encode(ctx, repo):
         body = sorted(norm(s) for s in t.body)
         if m == 'same' and body == ['compact >>= 8', 'nbytes += 1']:
             r.ok('sign-renormalisation', common.site_of(fi, t), 'mantissa >> 8 and exponent + 1 when bit 0x00800000 is set')
+            # ... on every path: small values (up to three bytes) can have the top bit of their leading byte set as well
+            r.check(t in fi.node.body, 'sign-renormalisation:every-path', common.site_of(fi, t), 'tested after both size branches',
+                    'the sign-bit test sits inside one branch of the size test: values of the other branch (0x80..0xff, 0x8000..0xffff, 0x800000..0xffffff when it is the '
+                    'large branch that keeps it) are encoded with the sign bit set', sure=True)
         elif m in ('same', 'near'):
             r.violated('sign-renormalisation', common.site_of(fi, t), 'renormalisation is `if %s: %s`; reference: if compact & 0x00800000: compact >>= 8; nbytes += 1' % (norm(t.test), '; '.join(body)))
         else:
